@@ -372,7 +372,7 @@ def setup():
         if not ok:
             return 2
         # build what the registered checks need (a file still being written for a property that is not
-        # claimed yet must not break setup); everything else is attempted with -k and only reported
+        # claimed yet must not break or delay setup)
         ready = [l.strip() for l in open(os.path.join(common.VERIF, "tools", "ready.txt")) if l.strip() and not l.startswith("#")]
         targets = []
         for pid in ready:
@@ -385,11 +385,8 @@ def setup():
         print(out[-3000:])
         if not ok:
             return 2
-        ok2, out2 = common.coq_make(["-k"], timeout=7000)
-        if not ok2:
-            print("note: files of properties not claimed yet do not build:\n" + "\n".join(
-                l for l in out2.splitlines() if l.startswith("File ") or "Error" in l)[:1500])
-        ok, out = common.harness_build()
+        fams = sorted({l["family"] for pid in ready if pid in registry.PROPS for l in registry.PROPS[pid]["legs"]})
+        ok, out = common.harness_build(families=fams)
         print(out[-1500:])
         if not ok:
             return 2
